@@ -161,6 +161,10 @@ impl Property for P {
             vec![H, O, C, M], vec![H, O, C, O, M],
             // renew without issue, protocol version mismatch leaves the channel unissued
             vec![H, R, M], vec![H, F::Opn { renew: false, pv: 1 }, M], vec![H, F::Opn { renew: false, pv: 1 }, O, M],
+            // an OpenSecureChannel request with security mode Invalid is answered with a fault and issues nothing
+            vec![H, F::Opn { renew: false, pv: 1000 }, M], vec![H, F::Opn { renew: false, pv: 1000 }, C], vec![H, F::Opn { renew: false, pv: 1000 }, R, M],
+            vec![H, F::Opn { renew: false, pv: 1000 }, O, M, M], vec![H, O, F::Opn { renew: true, pv: 1000 }, M], vec![H, O, F::Opn { renew: false, pv: 1000 }, M, C],
+            vec![H, F::Opn { renew: true, pv: 1000 }, M], vec![H, F::Opn { renew: false, pv: 1001 }, M],
             vec![H, O, R, M, O, M, C],
             vec![H, O, F::Msg { kind: 0, cid_ok: false }, M],
             vec![H, O, F::Clo { cid_ok: false }, M],
@@ -186,10 +190,10 @@ impl Property for P {
         let orderly = r.chance(2, 3);
         for i in 0..n {
             let f = if orderly && i == 0 { F::Hel { pv: if r.chance(1, 10) { 1 } else { 0 }, bufs_ok: !r.chance(1, 12), url_ok: !r.chance(1, 12) } }
-                else if orderly && i == 1 && r.chance(3, 4) { F::Opn { renew: r.chance(1, 8), pv: if r.chance(1, 8) { 1 } else { 0 } } }
+                else if orderly && i == 1 && r.chance(3, 4) { F::Opn { renew: r.chance(1, 8), pv: if r.chance(1, 8) { 1 } else if r.chance(1, 6) { 1000 } else { 0 } } }
                 else { match r.below(12) {
                     0 => F::Hel { pv: r.below(2) as u32, bufs_ok: r.chance(5, 6), url_ok: r.chance(5, 6) },
-                    1 | 2 => F::Opn { renew: r.chance(1, 2), pv: if r.chance(1, 6) { 1 } else { 0 } },
+                    1 | 2 => F::Opn { renew: r.chance(1, 2), pv: if r.chance(1, 6) { 1 } else if r.chance(1, 5) { 1000 + r.below(2) as u32 } else { 0 } },
                     3 => F::Clo { cid_ok: r.chance(4, 5) },
                     4 => F::Ack,
                     _ => F::Msg { kind: r.below(2) as u8, cid_ok: r.chance(9, 10) },
